@@ -256,8 +256,25 @@ func directedC07(c *ctx) {
 		pid, pol := c.policy(ops)
 		g := bmx.NewDocGen(c.r, ops)
 		for k := 0; k < 8; k++ {
+			g.TrustImpl = k%2 == 0
 			c.san(pid, pol, g.Conforming(pol, 1+c.r.Intn(10)))
 			i++
+		}
+	}
+	// one attribute covered by an element rule and a global rule with different patterns
+	for v := 0; v < 8; v++ {
+		ops := []*bmx.Op{
+			{Kind: "AE", Names: []string{"span", "b"}},
+			{Kind: "AA", Names: []string{"class"}, Re: bmx.NewRE(`^(lead|muted)$`), Scope: "G"},
+			{Kind: "AA", Names: []string{"class"}, Re: bmx.NewRE(`^badge-[a-z]+$`), Scope: "E", ScopeEl: []string{"span"}},
+			{Kind: "AA", Names: []string{"title"}, Re: bmx.NewRE(`^[a-z ]+$`), Scope: "M", ScopeRe: bmx.NewRE(`^s`)},
+			{Kind: "AA", Names: []string{"title"}, Re: bmx.NewRE(`^[0-9]+$`), Scope: "G"},
+		}
+		c.r.Shuffle(len(ops), func(i, j int) { ops[i], ops[j] = ops[j], ops[i] })
+		pid, pol := c.policy(ops)
+		for _, d := range []string{"<span class=\"muted\">x</span>", "<span class=\"badge-new\">x</span>", "<b class=\"lead\">x</b>",
+			"<span title=\"42\">x</span>", "<span class=\"lead\" title=\"a b\">x<b class=\"muted\" title=\"7\">y</b></span>"} {
+			c.san(pid, pol, []byte(d))
 		}
 	}
 	pid, pol := c.shipped("@UGC")
